@@ -1,6 +1,6 @@
 //go:build verif
 
-//verif:bounds whole-parser runs on a table of N fully symbolic payload bytes (quick 2, thorough 3) behind a valid header; templates with unconstrained holes: a Device with a dual-name path of 8 symbolic name bytes, a Field with a Connection buffer whose length prefix is symbolic, a path-declared Name followed by a Scope directive with all eight name bytes symbolic, a Buffer whose size operand is a nested Buffer with both package-length bytes drawn from a menu of 20 values (0..17, 0x41, 0xff)
+//verif:bounds whole-parser runs on a table of N fully symbolic payload bytes (quick 2, thorough 3) behind a valid header; templates with unconstrained holes: a Device with a dual-name path of 8 symbolic name bytes, a Field with a Connection buffer whose length prefix is symbolic, a path-declared Name followed by a Scope directive with all eight name bytes symbolic, a Scope(\\_SB_) whose body is 1..2 symbolic bytes, a Buffer whose size operand is a nested Buffer with both package-length bytes drawn from a menu of 20 values (0..17, 0x41, 0xff)
 //verif:assumes the table is a raw region of exactly header+payload bytes (any access outside it is a violation); error-message formatting (kfmt.Fprintf) is stubbed while encoding; exceeding the call-depth / instruction budget counts as non-termination
 //verif:override github.com/ProjectSerenity/firefly/kernel/kfmt.Fprintf vfNoFprintf
 package aml
@@ -149,5 +149,17 @@ func Verif_C12_tmpl_scope_resolution() {
 		c := p[i]
 		zzverif.Assume(zzverif.Or(c == '_', zzverif.And(c >= 'A', c <= 'Z')))
 	}
+	vfParse(h)
+}
+
+// Scope(\_SB_){ <1..2 arbitrary bytes> }: an arbitrary (mostly truncated) statement inside a predefined scope,
+// where operand collection could reach past the scope into the root's other children: 10 <7|8> 5c _SB_ <b0> [<b1>].
+//verif:split 4
+//verif:budget-is-violation
+//verif:depth 120
+func Verif_C12_tmpl_scope_body() {
+	n := 1 + zzverif.Choice("len", 2)
+	h, p := vfTable(7 + n)
+	copy(p, []byte{0x10, byte(6 + n), 0x5c, '_', 'S', 'B', '_'})
 	vfParse(h)
 }
